@@ -238,8 +238,10 @@ def skeleton(ctx, f: Fn):
         for c in g.nodes:
             if c.kind == "case" and any(lbl == "match" and g.dominates(s, n.id) for lbl, s in c.succ):
                 guards.add("case " + _norm(norm_text(c.ast.pattern)) + (" if " + _norm(norm_text(c.ast.guard)) if c.ast.guard is not None else ""))
+        if kind == "store":
+            guards = set()  # where a record is stored relative to the change test is decided by C10.R2; only *what* is stored is compared here
         out.append((kind, detail, tuple(sorted(guards))))
-    return sorted(out)
+    return sorted(set(out))
 
 
 def self_reads(f: Fn):
